@@ -149,3 +149,5 @@ func vShowList(l []string) string {
 func vIsDigitConc(b byte) bool    { return b >= '0' && b <= '9' }
 func vIsQuoteConc(b byte) bool    { return b == '\'' }
 func vStrEqConc(a, b string) bool { return a == b }
+
+func vFailedAny() bool { return len(vRT.failed) > 0 }
